@@ -169,11 +169,11 @@ func (p pd) mutate(x any, witness string, kind int) {
 var _ = pcommon.NewMap
 
 type c06Consumer struct {
-	n        int
-	mutates  bool // declared capability
-	fail     bool
-	mutKind  int
-	async    bool // the declared mutation happens in a later task, after Consume returned
+	n          int
+	mutates    bool // declared capability
+	fail       bool
+	mutKind    int
+	async      bool // the declared mutation happens in a later task, after Consume returned
 	undeclared bool // a non-mutating consumer tries to mutate anyway
 	// observations
 	calls    int
@@ -184,8 +184,8 @@ type c06Consumer struct {
 }
 
 type c06Cfg struct {
-	Signal    string `json:"signal"`
-	ReadOnly  bool   `json:"input_read_only"`
+	Signal    string   `json:"signal"`
+	ReadOnly  bool     `json:"input_read_only"`
 	Consumers []string `json:"consumers"`
 }
 
@@ -231,12 +231,14 @@ func runC06(r *simkit.Run) {
 		desc = append(desc, d)
 	}
 	r.Sample = c06Cfg{Signal: p.sig, ReadOnly: inputRO, Consumers: desc}
+	r.Logf("fan-out %s inputRO=%v over %v", p.sig, inputRO, desc)
 	ids := &gen.IDs{Prefix: "i"}
 	payload := p.gen(tp, ids)
 	if inputRO {
 		p.markReadOnly(payload)
 	}
 	sent := p.bytes(payload)
+	r.Logf("payload %d bytes", len(sent))
 	var later []func()
 	errOf := func(c *c06Consumer) error { return fmt.Errorf("consumer %d: %w", c.n, errStubConsume) }
 	errs := make([]error, n)
